@@ -2,6 +2,7 @@
 import theta_rules as T
 import cowrite
 import generic_lints
+import c19_rules
 
 
 def run(facts, tier):
@@ -17,6 +18,7 @@ def run(facts, tier):
         ("ordered flag", T.ordered_flag_validity, 3, "operands that claim is_ordered_ really are sorted: the compacting constructors sort whenever they set the flag for an unordered source"),
         ("builder/reset", T.builder_reset, 2, "union reset re-reads theta after the table reset"),
         ("couplings", lambda fa: cowrite.obligations(fa, ['theta_union_base']), 2, "fields that every mutator updates together (counters, extremes, cached values) are still updated together"),
+        ("reset completeness", lambda fa: c19_rules.reset_completeness(fa, ['theta_union_base','theta_union_alloc']), 2, "every field a mutator modifies is re-initialised by reset() (a reused object equals a fresh one); reviewed exceptions are configuration fields"),
         ("tautologies", lambda fa: generic_lints.tautologies(fa, ('theta/', 'tuple/')), 2, "no comparison / assignment / min-max with two identical operands, no if-else with identical arms"),
         ("duplicate operands", lambda fa: generic_lints.duplicate_conjuncts(fa, ('theta/', 'tuple/')), 2, "no logical chain tests the same operand twice (copy-paste of the wrong peer)"),
     ):
